@@ -97,6 +97,17 @@ def Val.word? : Val → Option Nat
   | .num n => if n < 2 ^ 32 then some n else none
   | _ => none
 
+mutual
+/-- Nesting depth of constructor values (an upper bound of the nesting of boxed objects). -/
+def Val.depth : Val → Nat
+  | .obj _ fs => fs.depth + 1
+  | .vec xs => xs.depth
+  | _ => 0
+def Vals.depth : Vals → Nat
+  | .nil => 0
+  | .cons v vs => max v.depth vs.depth
+end
+
 /-- `bin.Fields.Has`. -/
 def hasBit (w bit : Nat) : Bool := w.testBit bit
 
@@ -236,9 +247,14 @@ end
 /-! ### Decoding (gen/_template/decode.tmpl, box.tmpl)
 
 `fuel` bounds the recursion (every call spends one unit); running out of fuel is the explicit
-error `fuelOut`, never produced when `fuel ≥ size of the value` (see `decTy_roundtrip`). -/
+error `fuelOut`, never produced when `fuel ≥ size of the value` (see `tl_roundtrip`).
+`d` is the remaining nesting budget of `bin.Buffer` (`EnterObject`/`LeaveObject` in every
+generated `DecodeXxx`, the only recursion points of the generated code): it starts at
+`bin.MaxNestingDepth` and every boxed object spends one unit for its extent. -/
 
 def fuelOut : Err := .other "fuel"
+/-- `*bin.NestingDepthError`: more than `bin.MaxNestingDepth` nested boxed objects. -/
+def depthErr : Err := .other "depth"
 def badSchema : Err := .other "bad-schema"
 
 /-- Header of a bare vector: `b.Int()`; a negative count runs the loop zero times. -/
@@ -253,9 +269,9 @@ def vecCap (headerLen : Nat) : Nat :=
   if headerLen > 0 then headerLen % TdModel.Facts.C21.preallocateLimit else 0
 
 mutual
-def decTy (S : Schema) : Nat → Ty → Bytes → Res Val
-  | 0, _, _ => .error fuelOut
-  | fuel + 1, ty, b =>
+def decTy (S : Schema) : Nat → Nat → Ty → Bytes → Res Val
+  | 0, _, _, _ => .error fuelOut
+  | fuel + 1, d, ty, b =>
     match ty with
     | .int =>
       match getU32 b with
@@ -301,28 +317,32 @@ def decTy (S : Schema) : Nat → Ty → Bytes → Res Val
             match consumeID id b with
             | .error e => .error e
             | .ok (_, r) =>
-              match decFields S fuel [] ct.fields r with
+              match decFields S fuel d [] ct.fields r with
               | .ok (fs, r') => .ok (.obj c fs, r')
               | .error e => .error e
     | .boxed i =>
+      -- DecodeXxx: PeekID, then `buf.EnterObject()` (depth budget), then the switch
       match getU32 b with
       | .error e => .error e
       | .ok (id, r) =>
-        match findCtor S i id with
-        | none => .error .unexpectedID
-        | some c =>
-          match S.ctors[c]? with
-          | none => .error badSchema
-          | some ct =>
-            match decFields S fuel [] ct.fields r with
-            | .ok (fs, r') => .ok (.obj c fs, r')
-            | .error e => .error e
+        match d with
+        | 0 => .error depthErr
+        | d' + 1 =>
+          match findCtor S i id with
+          | none => .error .unexpectedID
+          | some c =>
+            match S.ctors[c]? with
+            | none => .error badSchema
+            | some ct =>
+              match decFields S fuel d' [] ct.fields r with
+              | .ok (fs, r') => .ok (.obj c fs, r')
+              | .error e => .error e
     | .ctor c bare =>
       match S.ctors[c]? with
       | none => .error badSchema
       | some ct =>
         if bare then
-          match decFields S fuel [] ct.fields b with
+          match decFields S fuel d [] ct.fields b with
           | .ok (fs, r') => .ok (.obj c fs, r')
           | .error e => .error e
         else
@@ -332,37 +352,37 @@ def decTy (S : Schema) : Nat → Ty → Bytes → Res Val
             match consumeID id b with
             | .error e => .error e
             | .ok (_, r) =>
-              match decFields S fuel [] ct.fields r with
+              match decFields S fuel d [] ct.fields r with
               | .ok (fs, r') => .ok (.obj c fs, r')
               | .error e => .error e
     | .vec bareHdr t =>
       match (if bareHdr then getBareLen b else getVectorHeader b) with
       | .error e => .error e
       | .ok (n, r) =>
-        match decElems S fuel t n r with
+        match decElems S fuel d t n r with
         | .ok (xs, r') => .ok (.vec xs, r')
         | .error e => .error e
 
-def decFields (S : Schema) : Nat → List Nat → List Field → Bytes → Res Vals
-  | 0, _, _, _ => .error fuelOut
-  | _ + 1, _, [], b => .ok (.nil, b)
-  | fuel + 1, env, f :: fs, b =>
+def decFields (S : Schema) : Nat → Nat → List Nat → List Field → Bytes → Res Vals
+  | 0, _, _, _, _ => .error fuelOut
+  | _ + 1, _, _, [], b => .ok (.nil, b)
+  | fuel + 1, d, env, f :: fs, b =>
     match f.cond with
     | some (k, bit) =>
       let present := hasBit (envWord env k) bit
       if f.ty = .trueFlag then
-        match decFields S fuel env fs b with
+        match decFields S fuel d env fs b with
         | .ok (vs, r) => .ok (.cons (.bool present) vs, r)
         | .error e => .error e
       else if present then
-        match decTy S fuel f.ty b with
+        match decTy S fuel d f.ty b with
         | .error e => .error e
         | .ok (v, r) =>
-          match decFields S fuel env fs r with
+          match decFields S fuel d env fs r with
           | .ok (vs, r') => .ok (.cons v vs, r')
           | .error e => .error e
       else
-        match decFields S fuel env fs b with
+        match decFields S fuel d env fs b with
         | .ok (vs, r) => .ok (.cons .absent vs, r)
         | .error e => .error e
     | none =>
@@ -370,25 +390,25 @@ def decFields (S : Schema) : Nat → List Nat → List Field → Bytes → Res V
         match getU32 b with
         | .error e => .error e
         | .ok (n, r) =>
-          match decFields S fuel (env ++ [n]) fs r with
+          match decFields S fuel d (env ++ [n]) fs r with
           | .ok (vs, r') => .ok (.cons (.num n) vs, r')
           | .error e => .error e
       else
-        match decTy S fuel f.ty b with
+        match decTy S fuel d f.ty b with
         | .error e => .error e
         | .ok (v, r) =>
-          match decFields S fuel env fs r with
+          match decFields S fuel d env fs r with
           | .ok (vs, r') => .ok (.cons v vs, r')
           | .error e => .error e
 
-def decElems (S : Schema) : Nat → Ty → Nat → Bytes → Res Vals
-  | 0, _, _, _ => .error fuelOut
-  | _ + 1, _, 0, b => .ok (.nil, b)
-  | fuel + 1, t, n + 1, b =>
-    match decTy S fuel t b with
+def decElems (S : Schema) : Nat → Nat → Ty → Nat → Bytes → Res Vals
+  | 0, _, _, _, _ => .error fuelOut
+  | _ + 1, _, _, 0, b => .ok (.nil, b)
+  | fuel + 1, d, t, n + 1, b =>
+    match decTy S fuel d t b with
     | .error e => .error e
     | .ok (v, r) =>
-      match decElems S fuel t n r with
+      match decElems S fuel d t n r with
       | .ok (vs, r') => .ok (.cons v vs, r')
       | .error e => .error e
 end
